@@ -328,3 +328,83 @@ Section Domain.
     valid_mask T = true /\ (decode_word h w <> None \/ gap_word w = true).
   Proof. split; [apply contracts_loose_inv|intros [H1 H2]; now apply contracts_loose_of_domain]. Qed.
 End Domain.
+
+(** * the raw-argument operations of the correspondence run (Run/C03.v, debug build):
+    the expectation of Spec/ContractSpec.v accepts the model's output on every raw input *)
+
+Lemma contracts_strict_split T w :
+  contracts_PathToIndex T w = contracts_PathToIndexLoose T w && bitmapMustHaveLevel T (PathLen w).
+Proof. reflexivity. Qed.
+
+Lemma pairZ_refl (a : Z * Z) : (fst a =? fst a) && (snd a =? snd a) = true.
+Proof. now rewrite !Z.eqb_refl. Qed.
+
+Section RawChecker.
+  Variables (T w : Z).
+  Hypothesis HT : - 2 ^ 31 <= T < 2 ^ 31.
+  Hypothesis Hw : 0 <= w < 2 ^ 64.
+
+  Lemma raw_loose_accepts (eqb : Z * Z -> Z * Z -> bool) : (forall a, eqb a a = true) ->
+    expect_accepts eqb (raw_loose_expect T w) (PathToIndexLoose_debug T w) = true.
+  Proof.
+    intros Hrefl. unfold raw_loose_expect.
+    pose proof (contracts_loose_domain T w HT Hw) as Hdom. cbv zeta in Hdom.
+    destruct (valid_mask T) eqn:Hv.
+    2:{ unfold PathToIndexLoose_debug. destruct (contracts_PathToIndexLoose T w); [|reflexivity].
+        destruct (proj1 Hdom eq_refl) as [H _]. discriminate. }
+    assert (HT1 : 1 <= T < 2 ^ 31).
+    { unfold valid_mask in Hv. apply andb_prop in Hv. destruct Hv as [H1 H2]. apply Z.leb_le in H1. apply Z.ltb_lt in H2. lia. }
+    set (h := Z.to_nat (Z.log2 T)) in *.
+    assert (HH : Height T = Z.of_nat h) by (rewrite Height_log2 by exact HT1; unfold h; pose proof (Z.log2_nonneg T); lia).
+    destruct (decode_word h w) as [q|] eqn:E.
+    - apply decode_sound in E; [|lia]. destruct E as [Hq ->].
+      rewrite (PathToIndexLoose_debug_eq T h q HT1 HH Hq), (PathToIndexLoose_pre_rank T h q HT1 HH Hq).
+      unfold spec_loose. rewrite spec_rank_pre_rank by (try exact Hq; apply T_range_h; assumption).
+      cbn [expect_accepts]. apply Hrefl.
+    - destruct (gap_word w) eqn:G; [reflexivity|].
+      unfold PathToIndexLoose_debug. destruct (contracts_PathToIndexLoose T w); [|reflexivity].
+      destruct (proj1 Hdom eq_refl) as [_ [H|H]]; [now elim H|discriminate].
+  Qed.
+
+  Lemma raw_strict_accepts :
+    expect_accepts Z.eqb (raw_strict_expect T w) (PathToIndex_debug T w) = true.
+  Proof.
+    unfold raw_strict_expect.
+    pose proof (contracts_loose_domain T w HT Hw) as Hdom. cbv zeta in Hdom.
+    destruct (valid_mask T) eqn:Hv.
+    2:{ unfold PathToIndex_debug. rewrite contracts_strict_split.
+        destruct (contracts_PathToIndexLoose T w); [|reflexivity].
+        destruct (proj1 Hdom eq_refl) as [H _]. discriminate. }
+    assert (HT1 : 1 <= T < 2 ^ 31).
+    { unfold valid_mask in Hv. apply andb_prop in Hv. destruct Hv as [H1 H2]. apply Z.leb_le in H1. apply Z.ltb_lt in H2. lia. }
+    set (h := Z.to_nat (Z.log2 T)) in *.
+    assert (HH : Height T = Z.of_nat h) by (rewrite Height_log2 by exact HT1; unfold h; pose proof (Z.log2_nonneg T); lia).
+    destruct (decode_word h w) as [q|] eqn:E.
+    - apply decode_sound in E; [|lia]. destruct E as [Hq ->].
+      destruct (stored T q) eqn:Hs.
+      + rewrite (PathToIndex_debug_eq T h q HT1 HH Hq Hs), (PathToIndex_pre_rank T h q HT1 HH Hq).
+        rewrite spec_rank_pre_rank by (try exact Hq; apply T_range_h; assumption).
+        cbn [expect_accepts]. apply Z.eqb_refl.
+      + rewrite (PathToIndex_debug_absent T h q HT1 HH Hq Hs). reflexivity.
+    - destruct (gap_word w) eqn:G; [reflexivity|].
+      unfold PathToIndex_debug. rewrite contracts_strict_split.
+      destruct (contracts_PathToIndexLoose T w); [|reflexivity].
+      destruct (proj1 Hdom eq_refl) as [_ [H|H]]; [now elim H|discriminate].
+  Qed.
+End RawChecker.
+
+(** the intended contract "a contract fires on every word that is not a path word" is FALSE
+    of the code as it is: a witness inside the gap (replayed on the implementation:
+    PathToIndexLoose(0xf, 0x800000000) = (15, 1) in the -tags debug build, no panic) *)
+Lemma contracts_gap_witness :
+  exists T w, - 2 ^ 31 <= T < 2 ^ 31 /\ 0 <= w < 2 ^ 64 /\
+    contracts_PathToIndexLoose T w = true /\
+    (forall q, (length q <= Z.to_nat (Height T))%nat -> w <> enc (Z.to_nat (Height T)) q) /\
+    PathToIndexLoose_debug T w = Some (15, 1) /\ ~ (15 < T).
+Proof.
+  exists 0xf, 0x800000000. split; [lia|]. split; [lia|]. split; [vm_compute; reflexivity|].
+  split; [|split; [vm_compute; reflexivity|lia]].
+  intros q Hq E. change (Z.to_nat (Height 15)) with 3%nat in *.
+  assert (D : decode_word 3 0x800000000 = Some q) by (apply decode_word_iff; [lia|lia|split; assumption]).
+  vm_compute in D. discriminate.
+Qed.
